@@ -1,5 +1,6 @@
 import Infretis.Lemmas.RepexC05Count
 import Infretis.Lemmas.RepexC05Load
+import Infretis.Lemmas.RepexC05Family
 /-!
 # C05 — the sampler never stalls: a job can always be drawn, sorting terminates
 
@@ -22,13 +23,25 @@ open Infretis.Repex Infretis.Perm Infretis.Perm.C05
 
 /-! ## Reachable states -/
 
-/-- reachable: some initial state as `load_paths` leaves it, some history with outcomes in the
-    weight family, run by the scheduler model -/
+/-- reachable from a fresh start: some initial state as `load_paths` leaves it, some history with
+    outcomes in the weight family, run by the scheduler model -/
 def Reachable (y : Sys) : Prop := ∃ y0 evs, Init5 y0 ∧ HistOk y0 evs ∧ run y0 evs = .ok y
 
-theorem reach_inv5 {y : Sys} (h : Reachable y) : Inv5 y := by
+/-- reachable from a fresh start **or from a restart** (`Start5 = Init5 ∨ Init5R`: the state
+    `load_paths` rebuilds from a restart file, recorded in-flight jobs waiting for re-issue);
+    `restart_is_start5` shows restarts of reachable states are such start states again, so this
+    covers any chain of restarts -/
+def ReachableR (y : Sys) : Prop := ∃ y0 evs, Start5 y0 ∧ HistOk y0 evs ∧ run y0 evs = .ok y
+
+theorem Reachable.toR {y : Sys} (h : Reachable y) : ReachableR y := by
+  obtain ⟨y0, evs, h0, hh, hr⟩ := h
+  exact ⟨y0, evs, Or.inl h0, hh, hr⟩
+
+theorem reach_inv5R {y : Sys} (h : ReachableR y) : Inv5 y := by
   obtain ⟨y0, evs, h0, hh, hr⟩ := h
   exact (run_preserves5 evs h0.inv5 hh hr).1
+
+theorem reach_inv5 {y : Sys} (h : Reachable y) : Inv5 y := reach_inv5R h.toR
 
 /-- **`Init5` is what a fresh start produces**: `REPEX_state.__init__` + `load_paths` on `n − 1`
     initial paths with distinct numbers below `traj_num` and weight vectors in the family. -/
@@ -217,8 +230,8 @@ theorem matchable_pick {s s2 : St} {H : List (Nat × Nat)} {tn tn' : Nat} (hc : 
     (hf : Fam s tn) (t e : Nat) (hpos : 0 < entryM (prob s) t e)
     (hl : lock (swap s t e) e = .ok s2) : Matchable s2 := by
   obtain ⟨pn, _, hc2, _⟩ := lockStep_core hc t e hpos hl
-  have hf2 := lockStep_fam hc hf t e hpos hl
-  exact ⟨hf2.nonneg hc2, hf2.perm⟩
+  have hf2 := lockStep_fam hc.toR hf t e hpos hl
+  exact ⟨hf2.nonneg hc2.toR, hf2.perm⟩
 
 example : Inv5 exSys ∧ 0 < entryM (prob exSys.s) 0 0
     ∧ (match lock (swap exSys.s 0 0) 0 with | .ok _ => true | .error _ => false) = true :=
@@ -232,12 +245,12 @@ theorem matchable_addTraj {s s' : St} {H : List (Nat × Nat)} {tn tn0 : Nat} (e 
     (he : (ens + 1).toNat = e) (hens : -1 ≤ ens)
     (hrow : RowOk s.n e (padValid s ens valid)) (hlook : s.wts.lookup pn = some valid) :
     0 < permC (idle s'.W s'.locks) :=
-  (addTraj_fam e pnOld pn ens valid hc hf ha he hens hrow hlook).perm
+  (addTraj_fam e pnOld pn ens valid hc.toR hf ha he hens hrow hlook).perm
 
 /-- a swap of `sort_trajstate` keeps the idle block matchable (it permutes idle rows) -/
 theorem matchable_sort {s s' : St} {H : List (Nat × Nat)} {tn tn' : Nat} (hc : Core s H tn')
     (hf : Fam s tn) (hs : sortStep s = .ok (some s')) : Matchable s' := by
-  rcases sortStep_progress hc hf with hnone | ⟨s1, hsome, hc1, _, hf1, _⟩
+  rcases sortStep_progress hc.toR hf with hnone | ⟨s1, hsome, hc1, _, hf1, _⟩
   · rw [hnone] at hs; simp at hs
   · rw [hsome] at hs
     simp only [Except.ok.injEq, Option.some.injEq] at hs
@@ -256,8 +269,8 @@ example : Inv5 (exAt 1) ∧ held (exAt 1).jobs = [(0, 0), (1, 1)] ∧ (exAt 1).s
 
 /-- **`matchable_invariant`**: in every reachable state the idle block of the weight matrix admits
     a perfect matching (non-negative entries, positive permanent). -/
-theorem matchable_invariant {y : Sys} (hr : Reachable y) : Matchable y.s := by
-  have h := reach_inv5 hr
+theorem matchable_invariant_restart {y : Sys} (hr : ReachableR y) : Matchable y.s := by
+  have h := reach_inv5R hr
   exact ⟨h.fam.nonneg h.inv.core, h.fam.perm⟩
 
 example : Reachable (exAt 5) ∧ (exAt 5).s.locks = [true, false, true, true]
@@ -267,11 +280,11 @@ example : Reachable (exAt 5) ∧ (exAt 5).s.locks = [true, false, true, true]
 /-- **`pick_defined`**: in every reachable state the probability matrix handed to `choice` has
     non-negative entries summing to the number of idle slots, which is positive as soon as one slot
     is idle: `P / ΣP` is a probability vector (finite, sums to one). -/
-theorem pick_defined {y : Sys} (hr : Reachable y) :
+theorem pick_defined_restart {y : Sys} (hr : ReachableR y) :
     ((prob y.s).map List.sum).sum = (nIdle y.s.locks : Rat) ∧
     (∀ i j, 0 ≤ entryM (prob y.s) i j) ∧
     (∀ i : Nat, y.s.locks[i]? = some false → 0 < ((prob y.s).map List.sum).sum) := by
-  have h := reach_inv5 hr
+  have h := reach_inv5R hr
   obtain ⟨h1, h2⟩ := prob_total h.inv.core h.fam
   refine ⟨h1, h2, fun i hi => ?_⟩
   rw [h1]
@@ -283,9 +296,9 @@ example : Reachable (exAt 4) ∧ (exAt 4).s.locks[1]? = some false
 
 /-- **A job can always be drawn**: in a reachable state with an idle slot some outcome has positive
     probability and `pick()` succeeds with it. -/
-theorem job_can_be_drawn {y : Sys} (hr : Reachable y) (i : Nat) (hi : y.s.locks[i]? = some false) :
+theorem job_can_be_drawn_restart {y : Sys} (hr : ReachableR y) (i : Nat) (hi : y.s.locks[i]? = some false) :
     ∃ o, 0 < entryM (prob y.s) o.t o.e ∧ ∃ r, pick y.s o = .ok r := by
-  have h := reach_inv5 hr
+  have h := reach_inv5R hr
   exact pick_possible h.inv.core h.fam i hi
 
 example : Reachable (exAt 0) ∧ (exAt 0).s.locks[0]? = some false :=
@@ -294,14 +307,14 @@ example : Reachable (exAt 0) ∧ (exAt 0).s.locks[0]? = some false :=
 /-- **An idle worker can always be given a job**: right after `treat_output` of a completed job —
     the moment the scheduler draws the worker's next job — the released ensemble is idle, some
     outcome has positive probability, and `pick()` succeeds with it. -/
-theorem idle_worker_gets_job {y y' : Sys} (hr : Reachable y) (k : Nat) (status : Status)
+theorem idle_worker_gets_job_restart {y y' : Sys} (hr : ReachableR y) (k : Nat) (status : Status)
     (newW : List (List Rat)) (o : PickOutcome) (hev : EvOk y (.step k status newW o))
     (h : sysStep y (.step k status newW o) = .ok y') :
     ∃ (s2 : St) (job : Job) (pns : List Nat) (it : Nat), y.jobs[k]? = some job ∧
       treatOutput (loop y.s).1 job status newW (sortFuel (loop y.s).1) = .ok (s2, pns, it) ∧
       (∃ i : Nat, s2.locks[i]? = some false) ∧
       ∃ o', 0 < entryM (prob s2) o'.t o'.e ∧ ∃ r, pick s2 o' = .ok r := by
-  have hi := reach_inv5 hr
+  have hi := reach_inv5R hr
   obtain ⟨_, _, s2, job, pns, it, hjob, htreat, hc2, hf2, _, _, _, ⟨i, hidle⟩, _⟩ :=
     step_preserves5 k status newW o hi hev h
   exact ⟨s2, job, pns, it, hjob, htreat, ⟨i, hidle⟩, pick_possible hc2 hf2 i hidle⟩
@@ -313,11 +326,11 @@ example : Reachable (exAt 4) ∧ EvOk (exAt 4) (.step 0 .rej [] { t := 2, e := 2
 /-- **During the initiation phase a job can be drawn for every worker that is started**, with any
     permitted number of workers (at most ensembles − 1, i.e. `workers + 2 ≤ n`): some ensemble is
     idle, some outcome has positive probability and `pick()` succeeds with it. -/
-theorem start_can_draw {y : Sys} (hr : Reachable y) (hw : y.s.workers + 2 ≤ y.s.n)
+theorem start_can_draw_restart {y : Sys} (hr : ReachableR y) (hw : y.s.workers + 2 ≤ y.s.n)
     (hto : 1 ≤ y.s.toinitiate) :
     (∃ i : Nat, y.s.locks[i]? = some false) ∧
       ∃ o, 0 < entryM (prob y.s) o.t o.e ∧ ∃ r, pick y.s o = .ok r := by
-  have h := reach_inv5 hr
+  have h := reach_inv5R hr
   obtain ⟨i, hi⟩ := start_has_idle_slot h.inv hw hto
   exact ⟨⟨i, hi⟩, pick_possible h.inv.core h.fam i hi⟩
 
@@ -336,13 +349,14 @@ theorem sorted_diagonal_nonzero {s s' : St} {H : List (Nat × Nat)} {tn k : Nat}
     s'.locks = s.locks ∧ s'.W.Perm s.W ∧ s'.trajs.Perm s.trajs ∧
     (∀ i : Nat, s.locks[i]? = some true → s'.W[i]? = s.W[i]? ∧ s'.trajs[i]? = s.trajs[i]?) := by
   obtain ⟨_, ha⟩ := sortTrajstate_core fuel hc hs
-  obtain ⟨h1, h2, h3, h4, _⟩ := sortTrajstate_frame fuel hc hs
+  obtain ⟨h1, h2, h3, h4, _⟩ := sortTrajstate_frame fuel hc.toR hs
   refine ⟨?_, h1, h2, h3, h4⟩
   exact diag_of_sortStep_none (sortTrajstate_fix fuel hs) (by rw [ha.toinitiate]; exact hto)
 
 example : (∃ H tn, Core (exAt 3).s H tn) ∧ (exAt 3).s.toinitiate = -1
     ∧ sortTrajstate 20 (exAt 3).s = .ok ((exAt 3).s, 0) :=
-  ⟨⟨_, _, (reach_inv5 (ex_reachable 3 (by decide))).inv.core⟩, by decide +kernel, by decide +kernel⟩
+  ⟨⟨_, _, (run_preserves _ ex_init5.init.inv (ex_runs 3 (by decide))).core⟩, by decide +kernel,
+    by decide +kernel⟩
 
 /-- `treat_output` is `preSort` (per-ensemble loop, "record weights", data rows) followed by
     `sort_trajstate`; the result gets the new `traj_num` and the worker's pin. -/
@@ -363,15 +377,15 @@ theorem treat_output_is_presort_then_sort (s : St) (job : Job) (status : Status)
     rows leave behind, `sort_trajstate` with the scheduler's fuel `n² + 4` returns — it neither runs
     out of fuel (`.stall`: a non-terminating `while`) nor hits one of its two `.index` failures
     (`.value`), nor any other error. -/
-theorem sort_terminates {y : Sys} (hr : Reachable y) (k : Nat) (status : Status)
+theorem sort_terminates_restart {y : Sys} (hr : ReachableR y) (k : Nat) (status : Status)
     (newW : List (List Rat)) (o : PickOutcome) (hev : EvOk y (.step k status newW o))
     (job : Job) (hjob : y.jobs[k]? = some job) (s3 : St) (tn : Nat) (pns : List Nat)
     (hpre : preSort (loop y.s).1 job status newW = .ok (s3, tn, pns)) :
     ∃ s4 it, sortTrajstate (sortFuel (loop y.s).1) s3 = .ok (s4, it) := by
-  have hi := reach_inv5 hr
+  have hi := reach_inv5R hr
   obtain ⟨hce, hfe, htn, _⟩ := loop_frame y.s
   have hperm := held_perm_erase y.jobs k job hjob
-  have hc1 : Core (loop y.s).1 (heldJob job ++ held (y.jobs.eraseIdx k)) (loop y.s).1.trajNum := by
+  have hc1 : CoreR (loop y.s).1 (heldJob job ++ held (y.jobs.eraseIdx k)) (loop y.s).1.trajNum := by
     rw [htn]
     exact (hi.inv.core.congr hce).perm hperm
   have hf1 : Fam (loop y.s).1 (loop y.s).1.trajNum := by rw [htn]; exact hi.fam.congr hfe
@@ -391,7 +405,7 @@ theorem sort_terminates {y : Sys} (hr : Reachable y) (k : Nat) (status : Status)
 theorem sort_terminates_state {s : St} {H : List (Nat × Nat)} {tn tn' : Nat} (hc : Core s H tn')
     (hf : Fam s tn) : mu s ≤ s.n * s.n ∧ ∃ s' it, sortTrajstate (sortFuel s) s = .ok (s', it) := by
   refine ⟨mu_le s hc.lenW, ?_⟩
-  obtain ⟨s', it, hs, _⟩ := sortTrajstate_terminates (sortFuel s) hc hf
+  obtain ⟨s', it, hs, _⟩ := sortTrajstate_terminates (sortFuel s) hc.toR hf
     (Nat.lt_of_le_of_lt (mu_le s hc.lenW) (by unfold sortFuel; omega))
   exact ⟨s', it, hs⟩
 
@@ -414,11 +428,11 @@ example : sortStep { exS0 with toinitiate := -1, W := [[1,0,0,0],[0,1,1,0],[0,1,
 
 /-- **`live_paths_distinct`**: in every reachable state every real slot holds a path, numbered
     below `traj_num`, and distinct slots hold distinct paths. -/
-theorem live_paths_distinct {y : Sys} (hr : Reachable y) :
+theorem live_paths_distinct_restart {y : Sys} (hr : ReachableR y) :
     (∀ e, e < y.s.n - 1 → ∃ pn, y.s.trajs[e]? = some (some pn) ∧ pn < y.s.trajNum) ∧
     (∀ a b pn, a < y.s.n - 1 → b < y.s.n - 1 →
       y.s.trajs[a]? = some (some pn) → y.s.trajs[b]? = some (some pn) → a = b) := by
-  have h := (reach_inv5 hr).inv.core
+  have h := (reach_inv5R hr).inv.core
   exact ⟨h.live, h.inj⟩
 
 example : Reachable (exAt 5) ∧ (exAt 5).s.trajs = [some 3, some 4, some 2, none]
@@ -433,7 +447,7 @@ theorem trajNum_mono {y0 y : Sys} {evs : List Ev} (h0 : Init5 y0) (hh : HistOk y
 /-- **`path_numbers_fresh`**: the numbers `treat_output` hands out for an accepted move start at the
     old `traj_num` and stay below the new one; none of them was ever used: it is not a live path,
     not a key of `traj_data` (weights or fractions) and not in a row of the data file. -/
-theorem path_numbers_fresh {y y' : Sys} (hr : Reachable y) (k : Nat) (newW : List (List Rat))
+theorem path_numbers_fresh_restart {y y' : Sys} (hr : ReachableR y) (k : Nat) (newW : List (List Rat))
     (o : PickOutcome) (hev : EvOk y (.step k .acc newW o))
     (h : sysStep y (.step k .acc newW o) = .ok y') :
     y.s.trajNum ≤ y'.s.trajNum ∧
@@ -442,7 +456,7 @@ theorem path_numbers_fresh {y y' : Sys} (hr : Reachable y) (k : Nat) (newW : Lis
       ∀ q ∈ pns, y.s.trajNum ≤ q ∧ q < y'.s.trajNum ∧
         (∀ e, e < y.s.n - 1 → y.s.trajs[e]? ≠ some (some q)) ∧
         q ∉ y.s.wts.map Prod.fst ∧ q ∉ y.s.frac.map Prod.fst ∧ q ∉ y.s.rows.map (·.1) := by
-  have hi := reach_inv5 hr
+  have hi := reach_inv5R hr
   obtain ⟨_, hle, s2, job, pns, it, hjob, htreat, _, _, htn2, _, hfresh, _⟩ :=
     step_preserves5 k .acc newW o hi hev h
   refine ⟨hle, s2, job, pns, it, hjob, htreat, ?_⟩
@@ -471,7 +485,7 @@ example : Reachable (exAt 3) ∧ EvOk (exAt 3) (.step 0 .acc [[1], [1, 1, 0]] { 
     the state `s2` `treat_output` leaves behind — the moment `write_toml` runs — has a non-zero
     diagonal, and `restore (persist s2)` with the live paths' recorded weight vectors passes every
     assertion of `load_paths` (whatever workers / steps / engine table the restart is given). -/
-theorem restart_file_loads {y y' : Sys} (hr : Reachable y) (k : Nat) (status : Status)
+theorem restart_file_loads_restart {y y' : Sys} (hr : ReachableR y) (k : Nat) (status : Status)
     (newW : List (List Rat)) (o : PickOutcome) (hev : EvOk y (.step k status newW o))
     (hto : y.s.toinitiate = -1) (h : sysStep y (.step k status newW o) = .ok y') :
     ∃ (s2 : St) (job : Job) (pns : List Nat) (it : Nat), y.jobs[k]? = some job ∧
@@ -480,15 +494,278 @@ theorem restart_file_loads {y y' : Sys} (hr : Reachable y) (k : Nat) (status : S
       ∀ (workers tsteps : Nat) (occ : List (List Int)) (ensEng : List (List Nat)),
         ∃ s'', restore (persist s2) s2.n workers tsteps occ ensEng
           (fun pn => (s2.wts.lookup pn).getD []) = .ok s'' := by
-  have hi := reach_inv5 hr
+  have hi := reach_inv5R hr
   obtain ⟨_, _, s2, job, pns, it, hjob, htreat, hc2, hf2, _, hdiag, _, _⟩ :=
     step_preserves5 k status newW o hi hev h
   exact ⟨s2, job, pns, it, hjob, htreat, hdiag hto, fun workers tsteps occ ensEng =>
-    restore_loads hc2 hf2 (hdiag hto) workers tsteps occ ensEng⟩
+    restore_loadsR hc2 hf2 (hdiag hto) workers tsteps occ ensEng⟩
 
 example : Reachable (exAt 4) ∧ EvOk (exAt 4) (.step 0 .rej [] { t := 2, e := 2 })
     ∧ (exAt 4).s.toinitiate = -1
     ∧ sysStep (exAt 4) (.step 0 .rej [] { t := 2, e := 2 }) = .ok (exAt 5) :=
   ⟨ex_reachable 4 (by decide), fun h => absurd h (by decide), by decide +kernel, by decide +kernel⟩
+
+/-! ## The fresh-start special cases (a run reachable from a fresh start is a `ReachableR` run) -/
+
+theorem matchable_invariant {y : Sys} (hr : Reachable y) : Matchable y.s :=
+  matchable_invariant_restart hr.toR
+
+theorem pick_defined {y : Sys} (hr : Reachable y) :
+    ((prob y.s).map List.sum).sum = (nIdle y.s.locks : Rat) ∧
+    (∀ i j, 0 ≤ entryM (prob y.s) i j) ∧
+    (∀ i : Nat, y.s.locks[i]? = some false → 0 < ((prob y.s).map List.sum).sum) :=
+  pick_defined_restart hr.toR
+
+theorem job_can_be_drawn {y : Sys} (hr : Reachable y) (i : Nat) (hi : y.s.locks[i]? = some false) :
+    ∃ o, 0 < entryM (prob y.s) o.t o.e ∧ ∃ r, pick y.s o = .ok r :=
+  job_can_be_drawn_restart hr.toR i hi
+
+theorem idle_worker_gets_job {y y' : Sys} (hr : Reachable y) (k : Nat) (status : Status)
+    (newW : List (List Rat)) (o : PickOutcome) (hev : EvOk y (.step k status newW o))
+    (h : sysStep y (.step k status newW o) = .ok y') :
+    ∃ (s2 : St) (job : Job) (pns : List Nat) (it : Nat), y.jobs[k]? = some job ∧
+      treatOutput (loop y.s).1 job status newW (sortFuel (loop y.s).1) = .ok (s2, pns, it) ∧
+      (∃ i : Nat, s2.locks[i]? = some false) ∧
+      ∃ o', 0 < entryM (prob s2) o'.t o'.e ∧ ∃ r, pick s2 o' = .ok r :=
+  idle_worker_gets_job_restart hr.toR k status newW o hev h
+
+theorem start_can_draw {y : Sys} (hr : Reachable y) (hw : y.s.workers + 2 ≤ y.s.n)
+    (hto : 1 ≤ y.s.toinitiate) :
+    (∃ i : Nat, y.s.locks[i]? = some false) ∧
+      ∃ o, 0 < entryM (prob y.s) o.t o.e ∧ ∃ r, pick y.s o = .ok r :=
+  start_can_draw_restart hr.toR hw hto
+
+theorem sort_terminates {y : Sys} (hr : Reachable y) (k : Nat) (status : Status)
+    (newW : List (List Rat)) (o : PickOutcome) (hev : EvOk y (.step k status newW o))
+    (job : Job) (hjob : y.jobs[k]? = some job) (s3 : St) (tn : Nat) (pns : List Nat)
+    (hpre : preSort (loop y.s).1 job status newW = .ok (s3, tn, pns)) :
+    ∃ s4 it, sortTrajstate (sortFuel (loop y.s).1) s3 = .ok (s4, it) :=
+  sort_terminates_restart hr.toR k status newW o hev job hjob s3 tn pns hpre
+
+theorem live_paths_distinct {y : Sys} (hr : Reachable y) :
+    (∀ e, e < y.s.n - 1 → ∃ pn, y.s.trajs[e]? = some (some pn) ∧ pn < y.s.trajNum) ∧
+    (∀ a b pn, a < y.s.n - 1 → b < y.s.n - 1 →
+      y.s.trajs[a]? = some (some pn) → y.s.trajs[b]? = some (some pn) → a = b) :=
+  live_paths_distinct_restart hr.toR
+
+theorem path_numbers_fresh {y y' : Sys} (hr : Reachable y) (k : Nat) (newW : List (List Rat))
+    (o : PickOutcome) (hev : EvOk y (.step k .acc newW o))
+    (h : sysStep y (.step k .acc newW o) = .ok y') :
+    y.s.trajNum ≤ y'.s.trajNum ∧
+    ∃ (s2 : St) (job : Job) (pns : List Nat) (it : Nat), y.jobs[k]? = some job ∧
+      treatOutput (loop y.s).1 job .acc newW (sortFuel (loop y.s).1) = .ok (s2, pns, it) ∧
+      ∀ q ∈ pns, y.s.trajNum ≤ q ∧ q < y'.s.trajNum ∧
+        (∀ e, e < y.s.n - 1 → y.s.trajs[e]? ≠ some (some q)) ∧
+        q ∉ y.s.wts.map Prod.fst ∧ q ∉ y.s.frac.map Prod.fst ∧ q ∉ y.s.rows.map (·.1) :=
+  path_numbers_fresh_restart hr.toR k newW o hev h
+
+theorem restart_file_loads {y y' : Sys} (hr : Reachable y) (k : Nat) (status : Status)
+    (newW : List (List Rat)) (o : PickOutcome) (hev : EvOk y (.step k status newW o))
+    (hto : y.s.toinitiate = -1) (h : sysStep y (.step k status newW o) = .ok y') :
+    ∃ (s2 : St) (job : Job) (pns : List Nat) (it : Nat), y.jobs[k]? = some job ∧
+      treatOutput (loop y.s).1 job status newW (sortFuel (loop y.s).1) = .ok (s2, pns, it) ∧
+      (∀ i, i < s2.n - 1 → entryM s2.W i i ≠ 0) ∧
+      ∀ (workers tsteps : Nat) (occ : List (List Int)) (ensEng : List (List Nat)),
+        ∃ s'', restore (persist s2) s2.n workers tsteps occ ensEng
+          (fun pn => (s2.wts.lookup pn).getD []) = .ok s'' :=
+  restart_file_loads_restart hr.toR k status newW o hev hto h
+
+/-! ## E. Restarts: the restored state is a start state again -/
+
+/-- **`restart_is_start5`** — closure under restarts.  For a state `y` reachable from a start state
+    (fresh or restarted, nothing recorded in `locked` at its start), the restart file written
+    there, restored with the same number of slots and the live paths' recorded weight vectors (any
+    workers / steps / engine table): if `load_paths` does not raise, the restored state is a
+    `Start5` state with an empty `locked` record — so every `_restart` theorem applies to runs
+    continued from it, and again after the next stop (any chain of restarts).
+    (`restart_file_loads_restart` shows `load_paths` does not raise at the moment `write_toml` runs.) -/
+theorem restart_is_start5 (y0 y : Sys) (evs : List Ev) (h0 : Start5 y0) (hl : y0.s.locked = [])
+    (hh : HistOk y0 evs) (hr : run y0 evs = .ok y) (workers tsteps : Nat) (occ : List (List Int))
+    (ensEng : List (List Nat)) (s' : St)
+    (h : restore (persist y.s) y.s.n workers tsteps occ ensEng
+      (fun pn => (y.s.wts.lookup pn).getD []) = .ok s') :
+    Start5 { s := s', jobs := [] } ∧ s'.locked = [] := by
+  have hj : y0.jobs = [] := by
+    rcases h0 with h0 | h0
+    · exact h0.init.jobs
+    · exact h0.init.jobs
+  have hinitR := restore_of_reachable_is_initR y0 y evs h0.start hl hj hr workers tsteps occ ensEng _ s' h
+  have hi := (run_preserves5 evs h0.inv5 hh hr).1
+  exact ⟨Or.inr (restore_init5R hi.inv.core hi.fam workers tsteps occ ensEng h hinitR), hinitR.locked⟩
+
+/-! ### a concrete restarted run: stop the example after event 4 (two jobs in flight), restore,
+re-issue both recorded jobs, close the initiation, complete both -/
+
+def exRS : St :=
+  match restore (persist (exAt 4).s) 4 2 10 [[-1, -1]] [[0], [0], [0]]
+      (fun pn => ((exAt 4).s.wts.lookup pn).getD []) with
+  | .ok s => s
+  | .error _ => exBlank
+
+def exSysR : Sys := { s := exRS, jobs := [] }
+
+def exEvsR : List Ev :=
+  [ .start { t := 0, e := 0 }, .start { t := 0, e := 0 }, .initDone,
+    .step 0 .acc [[1, 1, 0]] { t := 2, e := 2 }, .step 0 .rej [] { t := 0, e := 0 } ]
+
+def exRAt (k : Nat) : Sys :=
+  match run exSysR (exEvsR.take k) with
+  | .ok y => y
+  | .error _ => exSysR
+
+theorem exRS_restored : restore (persist (exAt 4).s) (exAt 4).s.n 2 10 [[-1, -1]] [[0], [0], [0]]
+    (fun pn => ((exAt 4).s.wts.lookup pn).getD []) = .ok exRS := by decide +kernel
+
+theorem ex_start5R : Start5 exSysR ∧ exSysR.s.locked = [] :=
+  restart_is_start5 exSys (exAt 4) (exEvs.take 4) (Or.inl ex_init5) (by decide +kernel)
+    (histOk_take _ _ _ ex_histOk) (ex_runs 4 (by decide)) 2 10 [[-1, -1]] [[0], [0], [0]] exRS exRS_restored
+
+theorem exR_step (k : Nat) (hk : k < 5) :
+    ∃ ev, exEvsR[k]? = some ev ∧ sysStep (exRAt k) ev = .ok (exRAt (k + 1)) := by
+  match k, hk with
+  | 0, _ => exact ⟨_, rfl, by decide +kernel⟩
+  | 1, _ => exact ⟨_, rfl, by decide +kernel⟩
+  | 2, _ => exact ⟨_, rfl, by decide +kernel⟩
+  | 3, _ => exact ⟨_, rfl, by decide +kernel⟩
+  | 4, _ => exact ⟨_, rfl, by decide +kernel⟩
+
+theorem exR_runs (k : Nat) (hk : k ≤ 5) : run exSysR (exEvsR.take k) = .ok (exRAt k) := by
+  match k, hk with
+  | 0, _ => decide +kernel
+  | 1, _ => decide +kernel
+  | 2, _ => decide +kernel
+  | 3, _ => decide +kernel
+  | 4, _ => decide +kernel
+  | 5, _ => decide +kernel
+
+theorem exR_evOk3 : EvOk (exRAt 3) (.step 0 .acc [[1, 1, 0]] { t := 2, e := 2 }) := by
+  intro _ job hjob pw hpw
+  have hens : (exRAt 3).jobs.map (fun j => j.picked.map (·.ens)) = [[1], [-1]] := by decide +kernel
+  have hn : (exRAt 3).s.n = 4 := by decide +kernel
+  have hj : job.picked.map (·.ens) = [1] := by
+    have := congrArg (fun l => l[0]?) hens
+    simp only [List.getElem?_map, hjob, Option.map_some, List.getElem?_cons_zero, Option.some.injEq] at this
+    exact this
+  rw [hn]
+  obtain ⟨p1, hp⟩ : ∃ p1, job.picked = [p1] := by
+    match hpk : job.picked with
+    | [p1] => exact ⟨p1, rfl⟩
+    | [] => rw [hpk] at hj; simp at hj
+    | _ :: _ :: _ => rw [hpk] at hj; simp at hj
+  rw [hp] at hj hpw
+  simp only [List.map_cons, List.map_nil, List.cons.injEq, and_true] at hj
+  simp only [List.zip_cons_cons, List.zip_nil_right, List.mem_cons, List.not_mem_nil, or_false] at hpw
+  subst hpw
+  show VecOk 4 p1.ens [1, 1, 0]
+  rw [hj]; exact vecOk_plus 1 (by decide)
+
+theorem exR_histOk : HistOk exSysR exEvsR := by
+  have h0 : exRAt 0 = exSysR := by decide +kernel
+  rw [← h0]
+  obtain ⟨ev0, he0, hs0⟩ := exR_step 0 (by decide)
+  obtain ⟨ev1, he1, hs1⟩ := exR_step 1 (by decide)
+  obtain ⟨ev2, he2, hs2⟩ := exR_step 2 (by decide)
+  obtain ⟨ev3, he3, hs3⟩ := exR_step 3 (by decide)
+  obtain ⟨ev4, he4, hs4⟩ := exR_step 4 (by decide)
+  simp only [exEvsR, List.getElem?_cons_zero, List.getElem?_cons_succ, Option.some.injEq] at he0 he1 he2 he3 he4
+  subst he0 he1 he2 he3 he4
+  exact histOk_cons hs0 trivial (histOk_cons hs1 trivial (histOk_cons hs2 trivial
+    (histOk_cons hs3 exR_evOk3 (histOk_cons hs4 (fun h => absurd h (by decide)) trivial))))
+
+theorem exR_reachable (k : Nat) (hk : k ≤ 5) : ReachableR (exRAt k) :=
+  ⟨exSysR, exEvsR.take k, ex_start5R.1, histOk_take _ _ _ exR_histOk, exR_runs k hk⟩
+
+/-- the restarted run: both recorded jobs are re-issued (slots 2 and 0 locked again), then complete;
+    all `_restart` theorems apply to each of these states -/
+example : ReachableR (exRAt 2) ∧ (exRAt 0).s.locked0 = [([2], [2]), ([0], [3])]
+    ∧ (exRAt 2).s.locks = [true, false, true, true] ∧ (exRAt 2).s.locked0 = []
+    ∧ (exRAt 5).s.trajs = [some 3, some 4, some 5, none] ∧ (exRAt 5).s.trajNum = 6 :=
+  ⟨exR_reachable 2 (by decide), by decide +kernel, by decide +kernel, by decide +kernel,
+    by decide +kernel, by decide +kernel⟩
+
+/-- non-vacuity of the step theorems on the restarted run (accepted step 3, rejected step 4) -/
+example : ReachableR (exRAt 3) ∧ EvOk (exRAt 3) (.step 0 .acc [[1, 1, 0]] { t := 2, e := 2 })
+    ∧ (exRAt 3).s.toinitiate = -1
+    ∧ sysStep (exRAt 3) (.step 0 .acc [[1, 1, 0]] { t := 2, e := 2 }) = .ok (exRAt 4) :=
+  ⟨exR_reachable 3 (by decide), exR_evOk3, by decide +kernel, by decide +kernel⟩
+
+/-- a second restart in the chain: stop the restarted run after its first re-issue and restore again -/
+example : ∃ s'', restore (persist (exRAt 1).s) (exRAt 1).s.n 2 10 [[-1, -1]] [[0], [0], [0]]
+      (fun pn => ((exRAt 1).s.wts.lookup pn).getD []) = .ok s''
+    ∧ Start5 { s := s'', jobs := [] } := by
+  have hex : ∃ s'', restore (persist (exRAt 1).s) (exRAt 1).s.n 2 10 [[-1, -1]] [[0], [0], [0]]
+      (fun pn => ((exRAt 1).s.wts.lookup pn).getD []) = .ok s'' := by
+    have hc := (reach_inv5R (exR_reachable 1 (by decide)))
+    exact restore_loadsR hc.inv.core hc.fam (by
+      intro i hi
+      have hn : (exRAt 1).s.n = 4 := by decide +kernel
+      rw [hn] at hi
+      have : i = 0 ∨ i = 1 ∨ i = 2 := by omega
+      rcases this with rfl | rfl | rfl <;> decide +kernel) 2 10 [[-1, -1]] [[0], [0], [0]]
+  obtain ⟨s'', hs⟩ := hex
+  exact ⟨s'', hs, (restart_is_start5 exSysR (exRAt 1) (exEvsR.take 1) ex_start5R.1 ex_start5R.2
+    (histOk_take _ _ _ exR_histOk) (exR_runs 1 (by decide)) 2 10 [[-1, -1]] [[0], [0], [0]] s'' hs).1⟩
+
+/-! ## F. Where the family hypothesis comes from: `calc_cv_vector` for shooting moves -/
+
+/-- **For shooting-only configurations the hypothesis `HistOk` of all theorems above is implied.**
+    `CvHist intfs y evs`: every accepted step's new weight vectors are what `calc_cv_vector`
+    computes (`WF.cvVector` with no wire-fencing entry for a plus ensemble, `WF.cvMinus` of a valid
+    path for `[0-]`), with strictly increasing interfaces `intfs` and `n = len(intfs) + 1` slots.
+    Then the history is in C02's staircase family (`cvVector_sh_staircase`: the entries `1` are
+    exactly the interfaces the path's maximum reaches — a prefix, because interfaces increase;
+    the last entry is `0`).
+    **Wire fencing is different**: a wf entry counts frames inside `[λ_i, cap)` on valid sub-paths;
+    a path that jumps over the whole band has weight `0` there while its weights further up are
+    non-zero (`wf_weight_vector_can_have_a_hole`), which is not a staircase.  For wf
+    configurations the family assumption therefore remains a scope restriction of this package. -/
+theorem histOk_of_cv_history (intfs : List Int) (hs : intfs.Pairwise (· < ·)) (y : Sys) (evs : List Ev)
+    (h : CvHist intfs y evs) : HistOk y evs :=
+  histOk_of_cv intfs hs evs y h
+
+/-- the weight vector of an accepted shooting path is in the family and non-zero in its own
+    ensemble `e` as soon as the path crosses `λ_e` (which an accepted shooting move guarantees) -/
+theorem cv_vector_family (n : Nat) (e : Nat) (ops intfs : List Int) (mv : List Bool) (cap : Option Int)
+    (ws : List Nat) (pmax : Int) (hmax : WF.maxOf ops = some pmax) (hn : n = intfs.length + 1)
+    (hs : intfs.Pairwise (· < ·)) (hmv : ∀ b ∈ mv, b = false)
+    (h : WF.cvVector ops intfs mv cap = .ok ws) (he : e < intfs.length - 1)
+    (hcross : intfs[e]'(by omega) ≤ pmax) :
+    VecOk n (e : Int) (ratVec ws) ∧ ws.getD e 0 = 1 :=
+  ⟨cvVector_sh_vecOk n e (by omega) ops intfs mv cap ws hn hs hmv h,
+    cvVector_sh_own ops intfs mv cap ws pmax hmax hs hmv h e he hcross⟩
+
+example : WF.cvVector [-1, 1, 5, -1] [0, 2, 4, 6] [false, false, false] none = .ok [1, 1, 1, 0]
+    ∧ WF.maxOf [-1, 1, 5, -1] = some 5 ∧ ([0, 2, 4, 6] : List Int).Pairwise (· < ·) := by
+  refine ⟨by decide, by decide, by decide⟩
+
+/-- **a wire-fencing weight vector with a hole**: interfaces `0 < 2 < 4 < 6`, ensemble `[1+]`
+    wire-fencing; the path `-1, 1, 7, -1` jumps over `[2, 6)`: weights `(1, 0, 1, 0)` -/
+theorem wf_weight_vector_can_have_a_hole :
+    WF.cvVector [-1, 1, 7, -1] [0, 2, 4, 6] [false, true, false] none = .ok [1, 0, 1, 0] :=
+  cvVector_wf_hole
+
+/-- the accepted step of the restarted example, read as a `calc_cv_vector` outcome -/
+example : EvCv [0, 2, 4] (exRAt 3) (.step 0 .acc [[1, 1, 0]] { t := 2, e := 2 }) := by
+  intro _
+  refine ⟨by decide +kernel, ?_⟩
+  intro job hjob pw hpw
+  have hens : (exRAt 3).jobs.map (fun j => j.picked.map (·.ens)) = [[1], [-1]] := by decide +kernel
+  have hj : job.picked.map (·.ens) = [1] := by
+    have := congrArg (fun l => l[0]?) hens
+    simp only [List.getElem?_map, hjob, Option.map_some, List.getElem?_cons_zero, Option.some.injEq] at this
+    exact this
+  obtain ⟨p1, hp⟩ : ∃ p1, job.picked = [p1] := by
+    match hpk : job.picked with
+    | [p1] => exact ⟨p1, rfl⟩
+    | [] => rw [hpk] at hj; simp at hj
+    | _ :: _ :: _ => rw [hpk] at hj; simp at hj
+  rw [hp] at hj hpw
+  simp only [List.map_cons, List.map_nil, List.cons.injEq, and_true] at hj
+  simp only [List.zip_cons_cons, List.zip_nil_right, List.mem_cons, List.not_mem_nil, or_false] at hpw
+  subst hpw
+  refine ⟨fun hneg => by simp only [hj] at hneg; omega, fun _ => ?_⟩
+  refine ⟨[-1, 1, 3, -1], [false, false], none, [1, 1, 0], by decide, by decide, ?_⟩
+  show ([1, 1, 0] : List Rat) = ratVec [1, 1, 0]
+  decide +kernel
 
 end Infretis.C05
